@@ -144,14 +144,17 @@ func (s *Server) reloadWorkspace() {
 	if s.workspace == nil || s.workspace.RootJournalPath() == "" {
 		return
 	}
-	_ = s.workspace.Initialize()
-	s.documents.Range(func(key, value any) bool {
-		docURI, _ := key.(protocol.DocumentURI)
-		text, _ := value.(string)
-		if path := uriToPath(docURI); path != "" {
-			s.workspace.UpdateFile(path, text)
-		}
-		return true
+	_ = s.workspace.Reload(func() map[string]string {
+		open := make(map[string]string)
+		s.documents.Range(func(key, value any) bool {
+			docURI, _ := key.(protocol.DocumentURI)
+			text, _ := value.(string)
+			if path := uriToPath(docURI); path != "" {
+				open[path] = text
+			}
+			return true
+		})
+		return open
 	})
 }
 
